@@ -16,14 +16,15 @@ trap cleanup EXIT
 cd "$W"
 PKGS=$(grep '^+++ b/' "$SRC/patch.diff" | sed 's#^+++ b/##' | xargs -n1 dirname | sort -u | sed 's#^#./#; s#$#/...#' | tr '\n' ' ')
 demo_name=zz_seed_demo_test.go
+RUNRE="^($(grep -oE '^func (Test[A-Za-z0-9_]+)' "$SRC/demo_test.go" | awk '{print $2}' | paste -sd'|'))\$"
 cp "$SRC/demo_test.go" "$DEMOPKG/$demo_name"
-go test -count=1 -tags verif ./"$DEMOPKG" >"$W/.demo_without.txt" 2>&1; r_without=$?
+go test -count=1 -tags verif -run "$RUNRE" ./"$DEMOPKG" >"$W/.demo_without.txt" 2>&1; r_without=$?
 rm "$DEMOPKG/$demo_name"
 git apply "$SRC/patch.diff" || { echo "RESULT patch does not apply"; exit 2; }
 go build ./... >"$W/.build.txt" 2>&1; r_build=$?
 go test -count=1 -exec "chrt -f 20" $PKGS ./"$DEMOPKG"/... $EXTRA >"$W/.pkgtests.txt" 2>&1; r_pkg=$?
 cp "$SRC/demo_test.go" "$DEMOPKG/$demo_name"
-go test -count=1 -tags verif ./"$DEMOPKG" >"$W/.demo_with.txt" 2>&1; r_with=$?
+go test -count=1 -tags verif -run "$RUNRE" ./"$DEMOPKG" >"$W/.demo_with.txt" 2>&1; r_with=$?
 rm "$DEMOPKG/$demo_name"
 cd /verif
 VERIF_REPO="$W" ./check "$PROP" "$TIER" >"$W/.check.txt" 2>&1; r_check=$?
